@@ -225,6 +225,47 @@ def gen(repo):
     expect_same(l3, 'for colname, col in dm.columns:\n    col._typechecking = True')
     expect_same(body[5], 'return dm')
 
+    # ---- DataMatrix.__getitem__: which operation a key of which Python type selects ---------------
+    fn = find_function(dmod, 'DataMatrix.__getitem__')
+    body = body_nodoc(fn)
+    if len(body) != 6:
+        raise TranslationError('__getitem__: %d statements, expected 6' % len(body))
+    env = Env([('isinstance(key, BaseColumn)', 'is_col', 'bool'), ('isinstance(key, basestring)', 'is_str', 'bool'),
+               ('isinstance(key, int)', 'is_int', 'bool'), ('isinstance(key, slice)', 'is_slice', 'bool'),
+               ('isinstance(key, Sequence)', 'is_seq', 'bool'),
+               ('all((isinstance(v, (basestring, BaseColumn)) for v in key))', 'all_names', 'bool')])
+    targets = ['return self._getcolbyobject(key)', 'return self._getcolbyname(key)', 'return self._getrow(key)',
+               'return self._slice(key)']
+    tests = []
+    for k in range(4):
+        t = the_if(body, k, '__getitem__')
+        if t.orelse:
+            raise TranslationError('__getitem__: unexpected else')
+        expect_same(t.body[0], targets[k])
+        tests.append(tr_typed(t.test, env, 'bool'))
+    t = the_if(body, 4, '__getitem__')
+    tests.append(tr_typed(t.test, env, 'bool'))
+    inner = the_if(t.body, 0, '__getitem__ (sequence branch)')
+    tests.append(tr_typed(inner.test, env, 'bool'))
+    expect_same(inner.body[-1], 'return ops.keep_only(self, *key)')
+    expect_same(t.body[1], 'return self._slice(key)')
+    if not isinstance(body[5], ast.Raise) or ast.unparse(body[5].exc.func) != 'KeyError':
+        raise TranslationError('__getitem__: the fall-through must raise KeyError')
+    out.append('(* DataMatrix.__getitem__: 0 column by object, 1 column by name, 2 row, 3 rows by slice, 4 keep_only (columns),\n'
+               '   5 rows by index list, 6 KeyError *)\n'
+               'Definition k_getitem_dispatch (is_col is_str is_int is_slice is_seq all_names : bool) : Z :=\n'
+               '  if %s then 0 else if %s then 1 else if %s then 2 else if %s then 3\n'
+               '  else if %s then (if %s then 4 else 5) else 6.\n' % tuple(tests))
+    # _slice: positional selection of the row ids and of every column, same family
+    fn = find_function(dmod, 'DataMatrix._slice')
+    body = [ast.unparse(x) for x in body_nodoc(fn)]
+    want = ['_rowid = self._rowid[key]', 'dm = DataMatrix(len(_rowid))', "object.__setattr__(dm, u'_rowid', _rowid)",
+            "object.__setattr__(dm, u'_id', self._id)",
+            'for name, col in self._cols.items():\n    dm._cols[name] = self._cols[name][key]\n    dm._cols[name]._datamatrix = dm',
+            'return dm']
+    if body != want:
+        raise TranslationError('_slice changed: %r' % (body,))
+
     # ---- Index: cache bookkeeping -----------------------------------------------------------
     fn = find_function(imod, 'Index.__init__')
     body = body_nodoc(fn)
